@@ -500,3 +500,67 @@ def composite_update_and_set_number_densities(k: int, a1: float, b1: float, v1: 
     o.setNumberDensities({"A": x})
     assert eq(o.getNumberDensity("A"), x), "a nuclide one child holds reads back"
     assert eq(o.getNumberDensity("B"), 0.0) and eq(o.getNumberDensity("C"), 0.0) and eq(o.getNumberDensity("D"), 0.0), "everything not listed is cleared"
+
+
+# ----------------------------------------------------------------------------- the symmetry factor itself
+HexBlock = repo("armi.reactor.blocks:HexBlock")
+Core = repo("armi.reactor.reactors:Core")
+HexGrid = repo("armi.reactor.grids.hexagonal:HexGrid")
+hexagon = repo("armi.utils.hexagon")
+
+
+class Loc:
+    """stand-in spatial locator: its grid and its complete (core-level) indices (IndexLocation.getCompleteIndices: C07)"""
+
+    def getCompleteIndices(self):
+        return self.ijk
+
+
+class CoreGrid(HexGrid):
+    """probe: the real HexGrid (symmetry, overlapsWhichSymmetryLine, getCoordinates) whose item access hands out the index
+    triple itself as the location key (IndexLocation hashes and compares as that triple)"""
+
+    def __getitem__(self, ijk):
+        return tuple(ijk)
+
+
+def core_grid(symmetry):
+    us = HexGrid._getRawUnitSteps(1.0, False)
+    return new(CoreGrid, _unitSteps=np.array(us), _bounds=(None, None, None), _stepDims=((0, 1, 2),), _boundDims=((),), _offset=np.zeros(3),
+               _unitStepLimits=((-3, 3), (-3, 3), (0, 1)), _symmetry=symmetry, _isAxialOnly=False, armiObject=None, _locations={})
+
+
+def block_in_core(i, j, k, symmetry, edgeModelled):
+    """a HexBlock at axial index k of an assembly at (i, j) of a core with the given symmetry; edgeModelled: an assembly
+    sits at (-1, 2), the first position of the 120-degree symmetry line"""
+    g = core_grid(symmetry)
+    core = new(Core, name="core", parent=None, spatialGrid=g, childrenByLocator={(-1, 2, 0): "an assembly"} if edgeModelled else {}, _children=[])
+    a = new(Composite, name="a", parent=core, spatialLocator=new(Loc, grid=g, ijk=(i, j, 0)), _children=[])
+    b = new(HexBlock, name="b", parent=a, spatialLocator=new(Loc, grid=None, ijk=(i, j, k)), _children=[])
+    return g, b
+
+
+@lemma(gen={"i": (-6, 6), "j": (-6, 6), "k": (0, 5)})
+def hex_block_symmetry_factor_follows_the_symmetry_lines(i: int, j: int, k: int, edgeModelled: bool):
+    """HexBlock.getSymmetryFactor in a third-core periodic model: 3 at the centre, 2 for a position whose centre lies ON the
+    0-degree or 120-degree boundary line (geometry from the real grid's coordinates) when the assemblies of the 120-degree
+    line are modelled, 1 everywhere else.  Stand-ins: Loc, CoreGrid, Core / assembly built with new()."""
+    g, b = block_in_core(i, j, k, "third periodic", edgeModelled)
+    s = b.getSymmetryFactor()
+    c = g.getCoordinates((i, j, 0))
+    x, y = c[0], c[1]
+    if i == 0 and j == 0:
+        assert s == 3.0, "the central position is shared by the three thirds"
+    elif edgeModelled and ((eq(y, 0.0) and x > 0) or (eq(y, -hexagon.SQRT3 * x) and x < 0)):
+        assert s == 2.0, "a position bisected by a modelled boundary line is half in the model"
+    else:
+        assert s == 1.0, "not cut"
+
+
+@lemma(gen={"i": (-6, 6), "j": (-6, 6), "k": (0, 5)})
+def hex_block_outside_a_third_core_model_is_not_cut(i: int, j: int, k: int, edgeModelled: bool):
+    """full core, or a block that is in no core grid at all: factor 1"""
+    g, b = block_in_core(i, j, k, "full", edgeModelled)
+    assert b.getSymmetryFactor() == 1.0
+    lone = new(HexBlock, name="b", parent=None, spatialLocator=None, _children=[])
+    assert lone.getSymmetryFactor() == 1.0
